@@ -6,7 +6,13 @@
 //!        | final amt= … | err BadHmac        real: public `peel_payment_onion` with that hop's node key
 //!   failbuild <ss> <code> <data> / failwrap <ss> <pkt> / faildecode <n> <ss>* <pkt>
 //!        real: build_failure_packet, HTLCFailReason::get_encrypted_failure_packet, decode_onion_failure (hooks)
-//!   failbuildx / failwrapx / faildecodex / fulfilwrapx / fulfildecodex: the same with AttributionData (hold times)
+//!   failbuildx / failwrapx / faildecodex / fulfilwrapx / fulfildecodex: the same with AttributionData (hold times);
+//!        failwrapx also reports the REAL serialized length of the relayed update_fail_htlc (`wire=`)
+//!   failchainx <n> <ss>* <k> <code> <dlen> <seed> <attr|legacy> <holds>: a whole failure of `dlen` data bytes from hop k
+//!        back to the sender (build / every relay / decode), at BOUNDARY sizes (pad-to-256 threshold, the data lengths
+//!        that make the update_fail_htlc LN_MAX_MSG_LEN-1 / exactly LN_MAX_MSG_LEN / +1 bytes, with attribution data and
+//!        from a failing node without it), relayed by 1..N hops; answer = lengths, attribution data kept per relay,
+//!        wire lengths, SHA-256 of the final packet / attribution data, decoded (hop, code, data, hold times)
 //! ECDH and ephemeral-key blinding are TRUSTED: the ephemeral keys stay on the Rust side, the
 //! model receives the per-hop shared secrets.
 use bitcoin::hashes::hmac::{Hmac, HmacEngine};
@@ -119,6 +125,134 @@ const CODES: [u16; 26] = [0x2002, 0x6002, 0x6003, 0xc004, 0xc005, 0xc006, 0x1007
 
 fn um_of(ss: &[u8; 32]) -> [u8; 32] { let mut h = HmacEngine::<Sha256>::new(b"um"); h.input(ss); Hmac::from_engine(h).to_byte_array() }
 
+type Attr = lightning::ln::onion_utils::AttributionData;
+
+/// serialized length on the wire (2-byte type + body) of the `update_fail_htlc` carrying `data` / `attr`, obtained
+/// from the REAL codec: candidate bytes are parsed by `UpdateFailHTLC::read` and re-encoded (must round-trip).
+/// Independent of onion_utils::update_fail_htlc_wire_len.  None: not representable (reason ≥ 65535 bytes).
+fn wire_len(data: &[u8], attr: Option<&Attr>) -> Option<usize> {
+	use lightning::util::ser::{BigSize, LengthReadable, Writeable};
+	if data.len() >= 0xffff { return None; }
+	let mut b = vec![0u8; 40];
+	b.extend_from_slice(&(data.len() as u16).to_be_bytes());
+	b.extend_from_slice(data);
+	if let Some(a) = attr { let v = a.encode(); b.push(1); b.extend(BigSize(v.len() as u64).encode()); b.extend_from_slice(&v); }
+	let msg = <lightning::ln::msgs::UpdateFailHTLC as LengthReadable>::read_from_fixed_length_buffer(&mut &b[..]).ok()?;
+	let enc = msg.encode();
+	if enc != b { return None; }
+	Some(enc.len() + 2)
+}
+
+/// what a failing node WITHOUT attribution-data support sends: hmac(um) ‖ len ‖ code ‖ data ‖ padlen ‖ pad, ammag-encrypted
+fn legacy_packet(ss: &[u8; 32], code: u16, data: &[u8]) -> Vec<u8> {
+	let fl = 2 + data.len(); let pad = 256usize.saturating_sub(fl);
+	let mut body: Vec<u8> = vec![]; body.extend((fl as u16).to_be_bytes()); body.extend(code.to_be_bytes()); body.extend_from_slice(data);
+	body.extend((pad as u16).to_be_bytes()); body.resize(body.len() + pad, 0);
+	let mut h = HmacEngine::<Sha256>::new(&um_of(ss)); h.input(&body);
+	let mut pkt = Hmac::from_engine(h).to_byte_array().to_vec(); pkt.extend(&body);
+	vh::crypt_failure_data(ss, pkt)
+}
+
+fn csv<T: ToString>(v: &[T]) -> String { if v.is_empty() { "none".into() } else { v.iter().map(|x| x.to_string()).collect::<Vec<_>>().join(",") } }
+
+/// One failure all the way back: hop `k` fails with `dlen` data bytes, hops k-1..0 relay (real
+/// `HTLCFailReason::get_encrypted_failure_packet` → process_failure_packet + crypt_failure_packet), the sender decodes.
+/// Implementation oracles (no model): reason length preserved; attribution data kept iff the resulting message fits in
+/// LN_MAX_MSG_LEN (REAL serialized length); a legal incoming message never becomes an illegal outgoing one; the sender
+/// decodes code, data and — unless a relay was forced to strip — the hold times of all hops that reported one.
+fn run_chain(ctx: &Ctx, rec: &mut Rec, c: &Case, ss: &[[u8; 32]], k: usize, code: u16, dlen: usize, seed: u8, legacy: bool, holds: &[u32], label: &str) {
+	let ln_max = lightning::ln::LN_MAX_MSG_LEN;
+	let n = ss.len();
+	let data: Vec<u8> = (0..dlen).map(|i| (seed as usize + 7 * i) as u8).collect();
+	let mut op = format!("failchainx {}", n); for s in ss { op.push_str(&format!(" {}", hex(s))); }
+	op.push_str(&format!(" {} {} {} {} {} {}", k, code, dlen, seed, if legacy { "legacy" } else { "attr" }, csv(holds)));
+	let class = format!("boundary:{}:{}", if legacy { "legacy" } else { "attr" }, label);
+	let (mut d, mut attr): (Vec<u8>, Option<Attr>) = if legacy { (legacy_packet(&ss[k], code, &data), None) } else {
+		match guarded(AssertUnwindSafe(|| vh::build_failure_packet(&ss[k], code, &data, holds[0]))) {
+			Ok(x) => x,
+			// debug builds: build_unencrypted_failure_packet asserts that what it builds fits on the wire
+			Err(_) => { *rec.classes.entry(format!("real-only:{}:build-refused(debug_assert)", class)).or_insert(0) += 1; return; },
+		}
+	};
+	// any real AttributionData, to measure what the message WOULD weigh with attribution data
+	let probe = vh::build_failure_packet(&ss[k], code, &[], 0).1.expect("build_failure_packet always adds attribution data");
+	let w = |d: &[u8], a: Option<&Attr>| wire_len(d, a).map(|x| x.to_string()).unwrap_or("none".into());
+	let mut line = format!("len0={} attr0={} wire0={}", d.len(), attr.is_some() as u8, w(&d, attr.as_ref()));
+	if !legacy && attr.is_none() { rec.oracle_fail(format!("build_failure_packet produced no attribution data (hop {} of {}, data_len {})", k, n, dlen)); }
+	let (mut kept, mut wires): (Vec<u8>, Vec<String>) = (vec![], vec![]);
+	let mut forced_strip = false;
+	for j in 0..k {
+		let hop = k - 1 - j;
+		let legal_in = wire_len(&d, attr.as_ref()).map_or(false, |x| x <= ln_max);
+		let in_len = d.len();
+		let (d2, a2) = vh::relay_failure_packet(&ss[hop], d, attr, holds[j + 1]);
+		if d2.len() != in_len { rec.oracle_fail(format!("relay hop {} of {} changed the failure packet length {} -> {} (failing hop {}, data_len {})", hop, n, in_len, d2.len(), k, dlen)); }
+		let with_attr = wire_len(&d2, Some(&probe));
+		let out = wire_len(&d2, a2.as_ref());
+		match with_attr {
+			Some(wl) if wl <= ln_max => { if a2.is_none() { rec.oracle_fail(format!("failure of wire length {} <= LN_MAX_MSG_LEN ({}) lost its attribution data at relay hop {} (path of {} hops, failing hop {}, failure data_len {}, {})", wl, ln_max, hop, n, k, dlen, if legacy { "failing node without attribution data" } else { "with attribution data" })); } },
+			_ => { forced_strip = true; if a2.is_some() { rec.oracle_fail(format!("relay hop {} kept attribution data on an update_fail_htlc of {:?} bytes > LN_MAX_MSG_LEN (failing hop {}, data_len {})", hop, with_attr, k, dlen)); } },
+		}
+		if legal_in && !out.map_or(false, |x| x <= ln_max) { rec.oracle_fail(format!("relay hop {} turned a legal update_fail_htlc into one of {:?} bytes > LN_MAX_MSG_LEN (failing hop {}, data_len {})", hop, out, k, dlen)); }
+		kept.push(a2.is_some() as u8); wires.push(w(&d2, a2.as_ref()));
+		d = d2; attr = a2;
+	}
+	let dec = vh::decode_onion_failure(&ctx.secp, &NullLogger, &c.path, &c.session, d.clone(), attr.clone());
+	let ahash = attr.as_ref().map(|a| { use lightning::util::ser::Writeable; hex(&Sha256::hash(&a.encode()).to_byte_array()) }).unwrap_or("none".into());
+	let decs = match (&dec.onion_error_code, &dec.onion_error_data) {
+		(Some(cd), Some(dt)) => format!("attributed {} {} dlen={} ddigest={}", dec.short_channel_id.and_then(|s| c.path.hops.iter().position(|h| h.short_channel_id == s)).map(|x| x as i64).unwrap_or(-1), cd, dt.len(), hex(&Sha256::hash(dt).to_byte_array())),
+		_ => match dec.short_channel_id { None => "unattributable".into(), Some(s) => format!("unreadable {}", c.path.hops.iter().position(|h| h.short_channel_id == s).map(|x| x as i64).unwrap_or(-1)) },
+	};
+	line.push_str(&format!(" len={} kept={} wire={} digest={} adigest={} dec={} holds={}", d.len(), csv(&kept), csv(&wires), hex(&Sha256::hash(&d).to_byte_array()), ahash, decs, csv(&dec.hold_times)));
+	// sender-side oracle
+	if dec.onion_error_code != Some(code) || dec.onion_error_data.as_deref() != Some(&data[..]) { rec.oracle_fail(format!("failure code/data changed on the way back: hop {} of {} sent code {} with {} data bytes, sender got {:?} with {:?} bytes", k, n, code, dlen, dec.onion_error_code, dec.onion_error_data.as_ref().map(|x| x.len()))); }
+	if !forced_strip {
+		// hold_k, …, hold_0 reversed = first hop first; a failing node without attribution data reports none itself
+		let mut exp: Vec<u32> = holds[if legacy { 1 } else { 0 }..=k].iter().rev().cloned().collect(); exp.truncate(20);
+		if dec.hold_times != exp { rec.oracle_fail(format!("sender decoded {} hold times {:?} for a failure relayed by {} hops although no relay was forced to strip the attribution data (expected {:?}; path of {} hops, failing hop {}, failure data_len {}, {})", dec.hold_times.len(), dec.hold_times, k, exp, n, k, dlen, if legacy { "failing node without attribution data" } else { "with attribution data" })); }
+	} else if !dec.hold_times.is_empty() && attr.is_none() { rec.oracle_fail(format!("hold times {:?} reported without attribution data", dec.hold_times)); }
+	rec.case(&op, &line, &class, true);
+}
+
+/// failure-data lengths around every threshold of the failure-relay path × relays 1..N
+fn boundary_section(ctx: &Ctx, rng: &mut Rng, rec: &mut Rec, thorough: bool) {
+	let ln_max = lightning::ln::LN_MAX_MSG_LEN;
+	// thresholds from the REAL codec: empty message, attribution-data TLV overhead, built packet overhead
+	let probe_ss = [7u8; 32];
+	let (p0, a0) = vh::build_failure_packet(&probe_ss, 0x2002, &[0u8; 300], 0);
+	let base = wire_len(&[], None).expect("codec probe");                     // 44
+	let with = wire_len(&[], a0.as_ref()).expect("codec probe");              // 968
+	let over = p0.len() - 300;                                                // 38: hmac + len + code + padlen
+	let attr_exact = ln_max - with - over;                                    // data_len making the message exactly LN_MAX_MSG_LEN with attribution data
+	let legacy_exact = ln_max - base - over;                                  // ... without attribution data
+	rec.notes.insert("boundary".into(), format!("LN_MAX_MSG_LEN={} empty update_fail_htlc={} with attribution data={} packet overhead={} => data_len {} (with attribution data) / {} (without) make the message exactly LN_MAX_MSG_LEN", ln_max, base, with, over, attr_exact, legacy_exact));
+	let mut sizes: Vec<(usize, bool, String)> = vec![];
+	for (d, l) in [(0usize, "0"), (1, "1"), (253, "pad-1"), (254, "pad-exact"), (255, "pad+1"), (256, "256"), (257, "257")] { sizes.push((d, false, l.to_string())); sizes.push((d, true, l.to_string())); }
+	for (o, l) in [(-2i64, "max-2"), (-1, "max-1"), (0, "max-exact"), (1, "max+1"), (2, "max+2")] {
+		sizes.push(((attr_exact as i64 + o) as usize, false, format!("attr-{}", l)));
+		sizes.push(((attr_exact as i64 + o) as usize, true, format!("attr-{}", l)));   // legacy packet to which the first relay adds attribution data: same threshold
+		sizes.push(((legacy_exact as i64 + o) as usize, true, format!("noattr-{}", l)));
+	}
+	let mid = rng.range(300, attr_exact as u64 - 3) as usize;
+	sizes.push((mid, false, "mid".into())); sizes.push((rng.range(attr_exact as u64 + 3, legacy_exact as u64 - 3) as usize, true, "between".into()));
+	let n_routes = if thorough { 6 } else { 2 };
+	for r in 0..n_routes {
+		let n = if r == 0 { 6 } else if r == 1 { 3 + rng.below(3) as usize } else { 2 + rng.below(25) as usize };
+		let c = draw_case(ctx, rng, n, false, true);
+		let ss = vh::shared_secrets(&ctx.secp, &c.path, &c.session);
+		for (dlen, legacy, label) in sizes.iter() {
+			// relayed by 1..N hops (N = n-1): all of them on the first route, a sample on the others; plus the unrelayed first hop
+			let ks: Vec<usize> = if r == 0 || thorough { (0..n).collect() } else { let mut v = vec![1usize.min(n - 1), n - 1]; v.push(rng.below(n as u64) as usize); v.sort(); v.dedup(); v };
+			for &k in ks.iter() {
+				if *dlen > 60000 && k > 3 && !(thorough && r == 0) && !label.contains("exact") { continue; }
+				let code = *rng.pick(&[0x2002u16, 0x6002, 0x6003, 0x2019, 0x201a]);
+				let holds: Vec<u32> = (0..=k).map(|_| match rng.below(4) { 0 => 0, 1 => rng.below(50) as u32, 2 => rng.below(100_000) as u32, _ => rng.next() as u32 }).collect();
+				run_chain(ctx, rec, &c, &ss, k, code, *dlen, rng.next() as u8, *legacy, &holds, label);
+			}
+		}
+	}
+}
+
 fn main() {
 	let args = &parse_args("c14");
 	let mut rec = Rec::new(&args.out, "c14");
@@ -130,6 +264,8 @@ fn main() {
 	let n_routes = (if args.thorough { 5000 } else { 450 }) * args.scale;
 	let n_corrupt = if args.thorough { 24 } else { 8 };
 	let mut max_hops_seen = 0usize;
+
+	boundary_section(&ctx, &mut rng, &mut rec, args.thorough);
 
 	for r in 0..n_routes {
 		// ---- choose a route: random length, or the longest that fits (N), or N+1 (oversize) -----
@@ -307,7 +443,8 @@ fn main() {
 			for j in (0..k).rev() {
 				let before = d.clone(); let abefore = ahex(&attr);
 				let (d2, a2) = vh::relay_failure_packet(&ss[j], d, attr, holds[j]);
-				if with_attr { rec.case(&format!("failwrapx {} {} {} {}", hex(&ss[j]), hex(&before), abefore, holds[j]), &format!("{} {}", hex(&d2), ahex(&a2)), "attr:wrap", true); }
+				if with_attr { rec.case(&format!("failwrapx {} {} {} {}", hex(&ss[j]), hex(&before), abefore, holds[j]), &format!("{} {} wire={}", hex(&d2), ahex(&a2), wire_len(&d2, a2.as_ref()).map(|x| x.to_string()).unwrap_or("none".into())), "attr:wrap", true); }
+				if a2.is_none() { rec.oracle_fail(format!("failure of {} bytes lost its attribution data at relay hop {} (failing hop {} of {})", d2.len(), j, k, n)); }
 				d = d2; attr = a2;
 				rec.case(&format!("failwrap {} {}", hex(&ss[j]), hex(&before)), &hex(&d), "fail:wrap", true);
 			}
@@ -376,6 +513,6 @@ fn main() {
 		}
 	}
 	rec.notes.insert("rule".into(), format!("PRNG routes of 1..N hops over {} node keys (N = longest suffix that fits {} bytes for the drawn payload sizes, also N+1), amounts in 6 magnitude classes, recipient fields (secret/metadata/custom TLVs/keysend) of varying size; per route: build (byte-exact), every hop peels, sampled single-bit corruptions, failures at random hops relayed back; every op line distinct; max hops seen {}", MAX_NODES, L, max_hops_seen));
-	rec.notes.insert("trusted".into(), "ECDH / ephemeral key blinding stay on the Rust side (shared secrets are inputs to the model); attribution data (hold times): executable model compared byte for byte + impl oracle, no theorem".into());
+	rec.notes.insert("trusted".into(), "ECDH / ephemeral key blinding stay on the Rust side (shared secrets are inputs to the model); the real serialized length of update_fail_htlc comes from the real codec (parse + re-encode round trip)".into());
 	rec.finish();
 }
